@@ -177,7 +177,7 @@ Definition apply_one (o : options) (p : patch) (lines : list line) (hunk_num : n
   let msgs := if verbose o || (negb perfect_h && negb (a_skip s2))
               then a_msgs s2 ++ print_hunk_statistics hunk_num (a_skip s2) loc hcur (a_o2n s2) (a_offerr s2)
               else a_msgs s2 in
-  let o2n := if loc_found loc then (a_o2n s2 + (rcount (newr hcur) - rcount (oldr hcur)))%Z else a_o2n s2 in
+  let o2n := if negb (a_skip s2) && loc_found loc then (a_o2n s2 + (rcount (newr hcur) - rcount (oldr hcur)))%Z else a_o2n s2 in
   Ok (mkAS (a_out s2) (a_rej s2) (a_rejected s2) (a_ln s2) o2n (a_offerr s2) (a_skip s2)
            (a_perfect s2 && perfect_h) msgs (a_hunks s2)).
 
